@@ -989,9 +989,18 @@ impl<'a, 'b, W: Write> Serializer for &'a mut YamlSerializer<'b, W> {
                 if self.prefer_block_scalars {
                     // If it's already multiline and long, emit literal block style for readability.
                     let char_len = v.chars().count();
-                    if char_len > self.folded_wrap_col {
+                    // A block scalar carries its content verbatim, so it can only hold what a
+                    // reader returns verbatim: no carriage returns or other line-break characters
+                    // (they are normalized), no other control characters (not printable in YAML).
+                    let block_safe = !v.chars().any(|c| {
+                        (c.is_control() && c != '\n' && c != '\t')
+                            || matches!(c, '\u{2028}' | '\u{2029}' | '\u{FEFF}')
+                    });
+                    if char_len > self.folded_wrap_col && block_safe {
                         self.pending_str_style = Some(StrStyle::Literal);
                         self.pending_str_from_auto = true;
+                    } else if char_len > self.folded_wrap_col {
+                        // leave it to the quoting logic below
                     } else {
                         // If removing newlines makes it plain-safe, then the only problem was
                         // newlines → allow literal block style. Otherwise, don't auto-select block
